@@ -26,9 +26,9 @@ with contextlib.redirect_stdout(_buf), warnings.catch_warnings():
     import checkpoint_schedules.hrevolve as cs_hrevolve    # noqa: E402
 
 if not os.path.realpath(cs.__file__).startswith(REPO + os.sep):
-    sys.stderr.write("HARNESS-ERROR: checkpoint_schedules imported from %s, "
-                     "expected under %s\n" % (cs.__file__, REPO))
-    sys.exit(2)
+    # an exception (not sys.exit): inside a pool worker it travels back to the parent as a
+    # harness error instead of silently killing the worker
+    raise ImportError("HARNESS-ERROR: checkpoint_schedules imported from %s, expected under %s" % (cs.__file__, REPO))
 
 ST = cs_schedule.StorageType
 Forward, Reverse, Copy, Move = (cs_schedule.Forward, cs_schedule.Reverse,
